@@ -1,6 +1,7 @@
 import Duckling.Model.Compile
 import Duckling.Lemmas.RBasic
 import Duckling.Lemmas.Prints
+import Duckling.Lemmas.SimPrint
 /-
   C18 — PRINT is a side channel: ordered, located, invisible in the output.
 
@@ -18,8 +19,18 @@ import Duckling.Lemmas.Prints
                              extends the log it started with — nothing is ever lost, reordered or rewritten — and the log
                              carried by a located error extends it too: the prints executed before a failure are still there;
   * `C18_compile_prints_before_failure`  for a whole compilation that fails with a located error the error carries a log.
-  The whole-program statements (insert PRINT anywhere ⇒ same output; each executed PRINT exactly once) are
-  validated by the correspondence and the reference interpreter, not proved — `partial` in that respect.
+  * `C18_print_invisible`   **whole compilations**: rewrite EVERY plain PRINT line (`PRINT text` in any letter case — not `$`-evaluated, owning
+                             no group) into PASS, in the program, in every block at every depth, in the bodies of functions and in the
+                             files on disk: the compilation gives exactly the same output lines, warnings, final variables — or the same
+                             error with the same trace — and an empty print log.  So a PRINT contributes nothing but its log entry, wherever
+                             it stands (loops, branches, functions, imported files), and two programs that differ only in the texts of
+                             their plain PRINT lines compile to the same output (`C18_print_text_irrelevant`).  An instance of the
+                             simulation walk, second form (Lemmas/Sim2, Lemmas/SimPrint): two runs of different code in lock-step.
+                             Hypothesis: no line of the code is a `$PRINT` (its expression may fail to evaluate) or a PRINT owning a group.
+  * `C18_rewrite_example`   the rewriting on a concrete nested program, checked by the kernel (non-vacuity of the hypotheses).
+  Line numbers are unchanged by the rewriting, which is why traces agree; that INSERTING a line only renumbers is C03's
+  `C03_numbers` / the correspondence's business.  "Each executed PRINT exactly once, in order" for whole programs is validated by the
+  correspondence and the reference interpreter, not proved — `partial` in that respect.
 -/
 namespace Duckling.Props.C18
 open Duckling
@@ -86,5 +97,46 @@ theorem C18_compile_prints_before_failure (o : Opts) (fs : FS) (file : Option Pa
   · rename_i e' he; cases h; exact ⟨_, _, _, he, rfl⟩
   · cases h
   · cases h
+
+/-- **PRINT is invisible**: every plain PRINT line rewritten to PASS — same result, empty log -/
+theorem C18_print_invisible (F : FS → FS) (opts : Opts) (fs : FS) (file : Option Path) (src src' : Source) (nodes : List Node)
+    (hsrc : prepare src = .ok nodes) (hsrc' : prepare src' = .ok ((simPrint F).code nodes))
+    (hq : allCmdsL printOk nodes = true) (hfs : FSOk printOk fs) (hF : S2.FRel (simPrint F) fs) :
+    compile opts (F fs) file src' = (compile opts fs file src).dropPrints :=
+  compile_print_invisible F opts fs file src src' nodes hsrc hsrc' hq hfs hF
+
+/-- two programs with the same rewriting (they differ only in the texts of their plain PRINT lines) compile to the same
+    output, warnings and variables, or to the same error -/
+theorem C18_print_text_irrelevant (opts : Opts) (file : Option Path) (srcA srcB src' : Source) (nodesA nodesB : List Node)
+    (hA : prepare srcA = .ok nodesA) (hB : prepare srcB = .ok nodesB)
+    (hsame : (simPrint id).code nodesA = (simPrint id).code nodesB) (hsrc' : prepare src' = .ok ((simPrint id).code nodesA))
+    (hqA : allCmdsL printOk nodesA = true) (hqB : allCmdsL printOk nodesB = true) :
+    (compile opts [] file srcA).dropPrints = (compile opts [] file srcB).dropPrints := by
+  have hF : S2.FRel (simPrint id) [] := fun _ => rfl
+  have hfs : FSOk printOk [] := by intro p t n h; cases h
+  rw [← C18_print_invisible id opts [] file srcA src' nodesA hA hsrc' hqA hfs hF,
+      ← C18_print_invisible id opts [] file srcB src' nodesB hB (hsame ▸ hsrc') hqB hfs hF]
+
+/-- a concrete nested program -/
+def exampleProg : List Node := [.line ⟨"PRINT hello".toList, 1⟩, .line ⟨"IF TRUE".toList, 2⟩,
+  .block [.line ⟨"print x".toList, 3⟩, .line ⟨"STRING".toList, 4⟩, .block [.line ⟨"PRINT kept".toList, 5⟩]]]
+
+/-- the rewriting on that program: PRINT lines at top level and inside an IF body become PASS, the argument group of a STRING is
+    kept as it is; the hypotheses of the theorem hold of it (kernel-checked: non-vacuity) -/
+theorem C18_rewrite_example :
+    (simPrint id).code exampleProg = [.line ⟨"PASS".toList, 1⟩, .line ⟨"IF TRUE".toList, 2⟩,
+      .block [.line ⟨"PASS".toList, 3⟩, .line ⟨"STRING".toList, 4⟩, .block [.line ⟨"PRINT kept".toList, 5⟩]]] ∧
+    allCmdsL printOk exampleProg = true := by
+  have c1 : S2.codeOf ⟨"IF TRUE".toList, 2⟩ true = true := by decide
+  have c2 : S2.codeOf ⟨"STRING".toList, 4⟩ true = false := by decide
+  have p1 : isPlainPrint ⟨"PRINT hello".toList, 1⟩ false = true := by decide
+  have p2 : isPlainPrint ⟨"IF TRUE".toList, 2⟩ true = false := by decide
+  have p3 : isPlainPrint ⟨"print x".toList, 3⟩ false = true := by decide
+  have p4 : isPlainPrint ⟨"STRING".toList, 4⟩ true = false := by decide
+  constructor
+  · simp only [exampleProg, S2.SimP.code, S2.tau_line, S2.tau_block, S2.tau_nil, nextBlock, hasBlockOf, simPrint, c1, c2, p1, p2, p3, p4,
+      passLine, if_true, if_false, Bool.false_eq_true, List.isEmpty_cons, Bool.not_false]
+  · simp only [exampleProg, allCmdsL_line, allCmdsL_block, allCmdsL_nil, nextBlock, hasBlockOf]
+    decide
 
 end Duckling.Props.C18
